@@ -152,12 +152,30 @@ class StrAbs:
                     item = self.appended[a.id]
                     # one or more items: item (sep item)*  — represented by its two shortest unrollings
                     return item | cat(cat(item, sep), item)
+                if isinstance(a, (ast.Tuple, ast.List)) and a.elts and not any(isinstance(x, ast.Starred) for x in a.elts):
+                    # a fixed sequence of pieces joined by the separator
+                    out = self.ev(a.elts[0], env, src)
+                    for x in a.elts[1:]:
+                        out = cat(cat(out, sep), self.ev(x, env, src))
+                    return out
+                if isinstance(a, (ast.ListComp, ast.GeneratorExp)) and len(a.generators) == 1:
+                    item = self._comprehension_item(a, env, src)
+                    return item | cat(cat(item, sep), item)
             if isinstance(e.func, ast.Name) and e.func.id == "str" and len(e.args) == 1:
                 return self.ev(e.args[0], env, src) if self._stringy(e.args[0], env) else {(("str", self.expand(e.args[0], src)),)}
             return {(("str", self.expand(e, src)),)}
         if isinstance(e, ast.FormattedValue):
             return self.ev(e.value, env, src)
         return {(("str", self.expand(e, src)),)}
+
+    def _comprehension_item(self, comp, env, src) -> AVal:
+        g = comp.generators[0]
+        fe, fs = dict(env), dict(src)
+        for n in ast.walk(g.target):
+            if isinstance(n, ast.Name):
+                fe.pop(n.id, None)
+                fs[n.id] = f"<{n.id} of {self.expand(g.iter, src)}>"
+        return self.ev(comp.elt, fe, fs)
 
     def _stringy(self, e: ast.AST, env) -> bool:
         if isinstance(e, (ast.JoinedStr, ast.IfExp)):
@@ -183,6 +201,10 @@ class StrAbs:
                 if s.value is None:
                     continue
                 t = s.targets[0] if isinstance(s, ast.Assign) else s.target
+                if isinstance(t, ast.Name) and isinstance(s.value, ast.ListComp) and len(s.value.generators) == 1:
+                    # a list built by a comprehension: its items are what a loop would have appended
+                    self.appended[t.id] = self.appended.get(t.id, set()) | self._comprehension_item(s.value, env, src)
+                    continue
                 if isinstance(t, ast.Name):
                     if self._stringy(s.value, env):
                         env[t.id] = self.ev(s.value, env, src)
